@@ -11,6 +11,7 @@ import (
 	"net/http"
 	"net/http/httptest"
 	"os"
+	"regexp"
 	"runtime/debug"
 	"sort"
 	"strconv"
@@ -395,6 +396,18 @@ func (st *runState) finish(ri *simcheck.RunInfo, sim *simrt.Sim, t0 time.Time, t
 			ri.Probes["late-second-writeheader"]++
 		}
 		st.checkDocument(r, add)
+	}
+	if len(leaked) == 0 && !crashed && !timedOut {
+		// every request has ended and its goroutines are gone: a result set that is still open will never be closed;
+		// it keeps its connection out of the bounded pool, and once the pool is empty read requests wait forever
+		if open := st.db.OpenStatements(); len(open) > 0 {
+			sql := open[0].SQL
+			if len(sql) > 90 {
+				sql = sql[:90]
+			}
+			add("C12", "result-set-left-open", "a result set is never closed: "+reDigits.ReplaceAllString(sql, "N"),
+				fmt.Sprintf("all requests returned and their goroutines ended, but %d result sets are still open (first: %.300q); requests: %v", len(open), open[0].SQL, st.paths()))
+		}
 	}
 	if len(leaked) > 0 && !crashed && !timedOut {
 		add("C12", "goroutine-leak", "goroutine started for a request still alive after it ended: "+siteOnly(leaked[0]),
@@ -940,3 +953,5 @@ func everyRowPasses(q string) bool {
 	}
 	return false
 }
+
+var reDigits = regexp.MustCompile(`[0-9]+`)
